@@ -362,7 +362,7 @@ func runReloadConc(first bool, threads string, sched []int) (line string, c18 st
 			go func(i int) { done[i] <- r.Reload(ctx) }(i)
 			select {
 			case <-entered[i]:
-			case <-time.After(5 * time.Second):
+			case <-time.After(3 * time.Second):
 				return "STUCK", fmt.Sprintf("Reload of thread %d did not call the builder", i)
 			}
 		case (o == '+' || o == '-') && seen[i] == 2:
@@ -370,7 +370,7 @@ func runReloadConc(first bool, threads string, sched []int) (line string, c18 st
 			var e error
 			select {
 			case e = <-done[i]:
-			case <-time.After(5 * time.Second):
+			case <-time.After(3 * time.Second):
 				return "STUCK", fmt.Sprintf("Reload of thread %d did not return after its build", i)
 			}
 			if e == nil {
